@@ -204,6 +204,7 @@ func runC12(t *rapid.T) {
 		b.Long = true
 		b.BigRows, b.BigRare = true, true
 	}
+	b.Cardinality = true
 	c := gen.DrawCSV(t, b)
 	p := drawPlan(t, c.Doc, c.Delim)
 	core.Eval()
